@@ -11,7 +11,7 @@ import builtins
 import os
 import symtable
 
-from sa.canon import canonicalise
+from sa.canon import canonicalise, literal_tables
 import sys
 from dataclasses import dataclass, field
 
@@ -215,8 +215,20 @@ class ClassInfo:
 BUILTIN_NAMES = set(dir(builtins)) | {"__file__", "__name__", "__doc__", "__package__", "__spec__", "__builtins__", "__path__", "__loader__", "__class__"}
 
 
+_CACHES = []
+
+
+def register_cache(d):
+    """module-level memo tables of the rules are keyed by names / node ids of ONE project: they are emptied whenever a
+    new Project is loaded (tools analyse many scratch copies in one process)"""
+    _CACHES.append(d)
+    return d
+
+
 class Project:
     def __init__(self, repo="/repo", package="einx"):
+        for d in _CACHES:
+            d.clear()
         self.repo = os.path.abspath(repo)
         self.package = package
         self.modules = {}  # name -> Module
@@ -254,11 +266,18 @@ class Project:
                     tree = ast.parse(source, filename=path)
                 except SyntaxError as e:
                     raise AnalysisError(f"{rel} does not parse: {e}") from e
-                for k, v in canonicalise(tree).items():
-                    self.canon_counts[k] = self.canon_counts.get(k, 0) + v
-                set_parents(tree)
                 m = Module(name=name, path=path, rel=rel, source=source, tree=tree, is_package=is_pkg)
                 self.modules[name] = m
+        # literal tables of all modules first (a loop may run over `pkg.mod.TABLE`), then the canonical form of each
+        global_tables = {}
+        for name, m in self.modules.items():
+            t = literal_tables(m.tree)
+            if t:
+                global_tables[name] = t
+        for m in self.modules.values():
+            for k, v in canonicalise(m.tree, global_tables).items():
+                self.canon_counts[k] = self.canon_counts.get(k, 0) + v
+            set_parents(m.tree)
         # namespace packages (directories without __init__.py)
         self.namespace_packages = set()
         for name in list(self.modules):
